@@ -43,6 +43,98 @@ Section GSSweep.
     - apply L4_any_bwd.
   Qed.
 
+  (* ---- any invariant of the block step is an invariant of the sweeps ------ *)
+  Definition interior ix iy iz : Prop := 1 <= ix < nx /\ 1 <= iy < ny /\ 1 <= iz < nz.
+  Definition St : Type := ((Z -> F) * (Z -> Z -> Z -> F) * (Z -> Z -> Z -> F) * (Z -> Z -> Z -> F))%type.
+  Definition St5 : Type := (Z * (Z -> F) * (Z -> Z -> Z -> F) * (Z -> Z -> Z -> F) * (Z -> Z -> Z -> F))%type.
+  Definition w4 (t : St) : St := (fst (fst (fst t)), snd (fst (fst t)), snd (fst t), snd t).
+  Lemma w4_id t : w4 t = t.
+  Proof. now destruct t as [[[a b] c] d]. Qed.
+
+  Notation L3 := (gauss_seidel_L3 sx sy sz eta_x eta_y eta_z zeta hx hy hz nu lhx nx lhy ny lhz nz
+                    (kof hx) (kof hy) (kof hz)).
+  Notation L2 := (gauss_seidel_L2 sx sy sz eta_x eta_y eta_z zeta hx hy hz nu lhx nx lhy ny lhz nz
+                    (kof hx) (kof hy) (kof hz)).
+  Notation L1 := (gauss_seidel_L1 sx sy sz eta_x eta_y eta_z zeta hx hy hz nu lhx nx lhy ny lhz nz
+                    (kof hx) (kof hy) (kof hz)).
+
+  Lemma node_range iback n ih : (iback = 0 \/ iback = 1) -> 1 <= ih < n -> 1 <= node iback n ih < n.
+  Proof. intros [->| ->] H; unfold node; cbn [Z.eqb negb]; lia. Qed.
+
+  Section Invariant.
+    Variable Inv : St -> Prop.
+    Hypothesis Inv_step : forall iz iy ix st, interior ix iy iz -> Inv st ->
+      Inv (L4 0 0 iz iz (iz-1) (iz+1) iy iy (iy-1) (iy+1) ix st).
+
+    Lemma L3_inv iback it izh iz iyh st :
+      (iback = 0 \/ iback = 1) -> 1 <= iz < nz -> 1 <= iyh < ny -> Inv st ->
+      Inv (L3 iback it izh iz (iz-1) (iz+1) iyh st).
+    Proof.
+      intros Hb Hz Hy G.
+      cbv delta [gauss_seidel_L3]. cbv beta. cbv zeta.
+      match goal with |- Inv (fst (fst (fst ?t)), _, _, _) => change (Inv (w4 t)) end.
+      rewrite w4_id.
+      match goal with |- Inv (Zfold _ _ _ ?s0) => change s0 with (w4 st) end. rewrite w4_id.
+      destruct (Z_le_gt_dec 1 nx) as [Hn|Hn].
+      - apply (Zfold_ind (fun _ s => Inv s)); [assumption|exact G|].
+        intros i s Hi Gs.
+        change (Inv (L4 iback it izh iz (iz-1) (iz+1) iyh (node iback ny iyh)
+                        (node iback ny iyh - 1) (node iback ny iyh + 1) i s)).
+        rewrite L4_any by assumption.
+        apply Inv_step; [|assumption].
+        pose proof (node_range iback nx i Hb Hi). pose proof (node_range iback ny iyh Hb Hy).
+        unfold interior. lia.
+      - rewrite Zfold_empty by lia. exact G.
+    Qed.
+
+    Lemma L2_inv iback it izh st :
+      (iback = 0 \/ iback = 1) -> 1 <= izh < nz -> Inv st -> Inv (L2 iback it izh st).
+    Proof.
+      intros Hb Hz G.
+      cbv delta [gauss_seidel_L2]. cbv beta. cbv zeta.
+      match goal with |- Inv (fst (fst (fst ?t)), _, _, _) => change (Inv (w4 t)) end.
+      rewrite w4_id.
+      match goal with |- Inv (Zfold _ _ _ ?s0) => change s0 with (w4 st) end. rewrite w4_id.
+      pose proof (node_range iback nz izh Hb Hz) as Hzz.
+      destruct (Z_le_gt_dec 1 ny) as [Hn|Hn].
+      - apply (Zfold_ind (fun _ s => Inv s)); [assumption|exact G|].
+        intros j s Hj Gs.
+        change (Inv (L3 iback it izh (node iback nz izh) (node iback nz izh - 1)
+                        (node iback nz izh + 1) j s)).
+        apply L3_inv; assumption.
+      - rewrite Zfold_empty by lia. exact G.
+    Qed.
+
+    Definition Inv5 (st : St5) : Prop :=
+      (fst (fst (fst (fst st))) = 0 \/ fst (fst (fst (fst st))) = 1) /\
+      Inv (snd (fst (fst (fst st))), snd (fst (fst st)), snd (fst st), snd st).
+
+    Lemma L1_inv it st : Inv5 st -> Inv5 (L1 it st).
+    Proof.
+      intros [Hb G].
+      cbv delta [gauss_seidel_L1]. cbv beta. cbv zeta.
+      set (ib := 1 - fst (fst (fst (fst st)))).
+      assert (Hib : ib = 0 \/ ib = 1) by (unfold ib; lia).
+      split; [exact Hib|].
+      cbn [fst snd].
+      match goal with |- Inv (fst (fst (fst ?t)), _, _, _) => change (Inv (w4 t)) end.
+      rewrite w4_id.
+      destruct (Z_le_gt_dec 1 nz) as [Hn|Hn].
+      - apply (Zfold_ind (fun _ s => Inv s)); [assumption|exact G|].
+        intros k s Hk Gs. apply L2_inv; assumption.
+      - rewrite Zfold_empty by lia. exact G.
+    Qed.
+
+    (* the whole smoother: Zfold 0 nu of L1, started with iback = 0 *)
+    Lemma sweeps_inv (s0 : St5) : Inv5 s0 -> Inv5 (Zfold 0 nu (fun it st => L1 it st) s0).
+    Proof.
+      intros G. destruct (Z_le_gt_dec 0 nu) as [Hn|Hn].
+      - apply (Zfold_ind (fun _ s => Inv5 s)); [assumption|exact G|].
+        intros it s _ Gs. now apply L1_inv.
+      - now rewrite Zfold_empty by lia.
+    Qed.
+  End Invariant.
+
   (* ---- extensionality of the operator in the field arrays --------------- *)
   Lemma edge_res_ext (fx fy fz gx gy gz : Z -> Z -> Z -> F) x ix iy iz k :
     (forall i j l, fx i j l = gx i j l) -> (forall i j l, fy i j l = gy i j l) ->
@@ -75,14 +167,12 @@ Section GSSweep.
 
   (* ---- the exact solution and the invariant ------------------------------ *)
   Variables (ex ey ez : Z -> Z -> Z -> F).     (* a field with zero residual *)
-  Definition interior ix iy iz : Prop := 1 <= ix < nx /\ 1 <= iy < ny /\ 1 <= iz < nz.
   Hypothesis exact : forall ix iy iz, interior ix iy iz -> forall k, 0 <= k < 6 ->
     edge_res ex ey ez sx sy sz eta_x eta_y eta_z zeta hx hy hz (cur ex ey ez ix iy iz) ix iy iz k = 0%F.
   Hypothesis pivots : forall ix iy iz, interior ix iy iz -> forall j, 0 <= j < 6 ->
     pivot 6 (fst (gs_sys ex ey ez sx sy sz eta_x eta_y eta_z zeta hx hy hz nu lhx nx lhy ny lhz nz
                          (fun _ => 0%F) ix iy iz)) j <> 0%F.
 
-  Definition St : Type := ((Z -> F) * (Z -> Z -> Z -> F) * (Z -> Z -> Z -> F) * (Z -> Z -> Z -> F))%type.
   Definition Good (st : St) : Prop :=
     (forall i j l, snd (fst (fst st)) i j l = ex i j l) /\
     (forall i j l, snd (fst st) i j l = ey i j l) /\
@@ -99,7 +189,7 @@ Section GSSweep.
     Good (L4 0 0 iz iz (iz-1) (iz+1) iy iy (iy-1) (iy+1) ix st).
   Proof.
     intros Hin [Gx [Gy Gz]]. destruct st as [[[a0 fx] fy] fz]. cbn [fst snd] in Gx, Gy, Gz.
-    unfold L4.
+
     rewrite (L4_step fx fy fz sx sy sz eta_x eta_y eta_z zeta hx hy hz nu lhx nx lhy ny lhz nz a0 ix iy iz).
     cbv zeta.
     set (sys := gs_sys fx fy fz sx sy sz eta_x eta_y eta_z zeta hx hy hz nu lhx nx lhy ny lhz nz a0 ix iy iz).
@@ -136,4 +226,81 @@ Section GSSweep.
     - rewrite upd3_self; [rewrite upd3_self; [apply Gz|exact R4]|].
       rewrite upd3_other by lia. exact R5.
   Qed.
+
+  (* ---- frame: tangential boundary values are never written (any field) ---- *)
+  Variables (bx by_ bz : Z -> Z -> Z -> F).      (* the field before smoothing *)
+  Definition Frame (st : St) : Prop :=
+    (forall i j l, (j <= 0 \/ ny <= j \/ l <= 0 \/ nz <= l) -> snd (fst (fst st)) i j l = bx i j l) /\
+    (forall i j l, (i <= 0 \/ nx <= i \/ l <= 0 \/ nz <= l) -> snd (fst st) i j l = by_ i j l) /\
+    (forall i j l, (i <= 0 \/ nx <= i \/ j <= 0 \/ ny <= j) -> snd st i j l = bz i j l).
+
+  Lemma L4_frame iz iy ix st : interior ix iy iz -> Frame st ->
+    Frame (L4 0 0 iz iz (iz-1) (iz+1) iy iy (iy-1) (iy+1) ix st).
+  Proof.
+    intros [Hx [Hy Hz]] [Gx [Gy Gz]]. destruct st as [[[a0 fx] fy] fz]. cbn [fst snd] in Gx, Gy, Gz.
+    rewrite (L4_step fx fy fz sx sy sz eta_x eta_y eta_z zeta hx hy hz nu lhx nx lhy ny lhz nz a0 ix iy iz).
+    cbv zeta. unfold Frame. cbn [fst snd]. unfold new_ex, new_ey, new_ez.
+    repeat split; intros i j l Hb; rewrite !upd3_other by lia; auto.
+  Qed.
 End GSSweep.
+
+(* The whole smoother, every number of sweeps, every shape: a field whose block
+   equations hold at every interior node is returned unchanged (pointwise). *)
+Section GSWhole.
+  Context {F : Type} {O : FOps F}.
+  Hypothesis Fth : field_theory F0 F1 Fadd Fmul Fsub Fopp Fdiv Finv (@eq F).
+  Hypothesis two_nz : (1 + 1)%F <> 0%F.
+  Variables (ex ey ez sx sy sz eta_x eta_y eta_z zeta : Z -> Z -> Z -> F).
+  Variables (hx hy hz : Z -> F).
+  Hypothesis hx_nz : forall i, hx i <> 0%F.
+  Hypothesis hy_nz : forall i, hy i <> 0%F.
+  Hypothesis hz_nz : forall i, hz i <> 0%F.
+  Variables (nu nx ny nz : Z).
+  Hypothesis Hnx : 0 <= nx.
+  Hypothesis Hny : 0 <= ny.
+  Hypothesis Hnz : 0 <= nz.
+  Hypothesis exact : forall ix iy iz, interior nx ny nz ix iy iz -> forall k, 0 <= k < 6 ->
+    edge_res ex ey ez sx sy sz eta_x eta_y eta_z zeta hx hy hz (cur ex ey ez ix iy iz) ix iy iz k = 0%F.
+  Hypothesis pivots : forall ix iy iz, interior nx ny nz ix iy iz -> forall j, 0 <= j < 6 ->
+    pivot 6 (fst (gs_sys ex ey ez sx sy sz eta_x eta_y eta_z zeta hx hy hz nu nx nx ny ny nz nz
+                         (fun _ => 0%F) ix iy iz)) j <> 0%F.
+
+  Theorem gauss_seidel_fixed_point :
+    let r := gauss_seidel nx ny nz ex ey ez sx sy sz eta_x eta_y eta_z zeta hx hy hz nu in
+    forall i j l, fst (fst r) i j l = ex i j l /\ snd (fst r) i j l = ey i j l /\ snd r i j l = ez i j l.
+  Proof.
+    cbv zeta. cbv delta [gauss_seidel]. cbv beta. cbv zeta. cbn [fst snd].
+    set (t := Zfold 0 nu _ _).
+    assert (G : Inv5 (Good ex ey ez) t).
+    { subst t.
+      apply (sweeps_inv sx sy sz eta_x eta_y eta_z zeta hx hy hz nu nx nx ny ny nz nz (Good ex ey ez)).
+      - intros iz iy ix st Hin Gs.
+        apply (L4_good Fth two_nz sx sy sz eta_x eta_y eta_z zeta hx hy hz hx_nz hy_nz hz_nz
+                       nu nx nx ny ny nz nz ex ey ez exact pivots iz iy ix st Hin Gs).
+      - split; [left; reflexivity|]. repeat split; reflexivity. }
+    destruct G as [_ [Gx [Gy Gz]]]. cbn [fst snd] in Gx, Gy, Gz.
+    intros i j l. repeat split; [apply Gx|apply Gy|apply Gz].
+  Qed.
+
+  (* tangential boundary values (and everything outside the interior edges) are
+     never written, whatever the field, the source and the number of sweeps *)
+  Theorem gauss_seidel_frame :
+    let r := gauss_seidel nx ny nz ex ey ez sx sy sz eta_x eta_y eta_z zeta hx hy hz nu in
+    (forall i j l, (j <= 0 \/ ny <= j \/ l <= 0 \/ nz <= l) -> fst (fst r) i j l = ex i j l) /\
+    (forall i j l, (i <= 0 \/ nx <= i \/ l <= 0 \/ nz <= l) -> snd (fst r) i j l = ey i j l) /\
+    (forall i j l, (i <= 0 \/ nx <= i \/ j <= 0 \/ ny <= j) -> snd r i j l = ez i j l).
+  Proof.
+    cbv zeta. cbv delta [gauss_seidel]. cbv beta. cbv zeta. cbn [fst snd].
+    set (t := Zfold 0 nu _ _).
+    assert (G : Inv5 (Frame nx ny nz ex ey ez) t).
+    { subst t.
+      apply (sweeps_inv sx sy sz eta_x eta_y eta_z zeta hx hy hz nu nx nx ny ny nz nz
+                        (Frame nx ny nz ex ey ez)).
+      - intros iz iy ix st Hin Gs.
+        apply (L4_frame sx sy sz eta_x eta_y eta_z zeta hx hy hz nu nx nx ny ny nz nz ex ey ez
+                        iz iy ix st Hin Gs).
+      - split; [left; reflexivity|]. repeat split; intros; reflexivity. }
+    destruct G as [_ [Gx [Gy Gz]]]. cbn [fst snd] in Gx, Gy, Gz.
+    repeat split; intros i j l Hb; [apply Gx|apply Gy|apply Gz]; assumption.
+  Qed.
+End GSWhole.
